@@ -282,6 +282,7 @@ void traverse_for_images(token * t, DString * text, mmd_engine * e, long * offse
 	asset * a;
 	char * clean;
 	link * l;
+	bool is_link_definition;
 
 	while (t) {
 		switch (t->type) {
@@ -315,6 +316,7 @@ void traverse_for_images(token * t, DString * text, mmd_engine * e, long * offse
 				break;
 
 			case BLOCK_EMPTY:
+				is_link_definition = false;
 
 				// Is this a link definition?
 				for (int i = 0; i < e->definition_stack->size; ++i) {
@@ -327,6 +329,8 @@ void traverse_for_images(token * t, DString * text, mmd_engine * e, long * offse
 								// This is a match
 								HASH_FIND_STR(e->asset_hash, l->url, a);
 
+								is_link_definition = true;
+
 								if (a) {
 									memcpy(&destination[7], a->asset_path, 36);
 									* offset += d_string_replace_text_in_range(text, t->start + *offset, t->len, l->url, destination);
@@ -334,6 +338,11 @@ void traverse_for_images(token * t, DString * text, mmd_engine * e, long * offse
 							}
 						}
 					}
+				}
+
+				// Footnote, citation and glossary definitions keep their content here
+				if (!is_link_definition && t->child) {
+					traverse_for_images(t->child, text, e, offset, destination, url);
 				}
 
 				break;
